@@ -59,6 +59,7 @@ impl<'a> EvalCheck<'a> {
     fn check(&self, b: &Board, p: &Pos) {
         self.states.fetch_add(1, Ordering::Relaxed);
         let fen = p.fen4();
+        crate::crumb::set(&["c14-one", "--fen", &fen]);
         let fresh = match eval_fresh(b) {
             Ok(v) => v,
             Err(e) => {
